@@ -126,6 +126,9 @@ def twins(rnd, lines):
     if items[a][2][0][21] != items[b][2][0][21]:
         return None
     num = items[a][2][0][22:26]
+    # the new name must be free: a structure may already hold a residue `k A` (the generators insert insertion-coded twins)
+    if any(it[0] == "res" and it[2][0][21] == items[a][2][0][21] and it[2][0][22:26] == num and it[2][0][26] == "A" for it in items):
+        return None
     tw = list(items)
     tw[b] = ("res", None, [pdbgen.setcols(pdbgen.setcols(l, 22, 26, num), 26, 27, "A") for l in items[b][2]])
     return pdbgen.flatten(tw), (int(num), int(items[b][2][0][22:26]))
